@@ -767,6 +767,20 @@ def rule_invalidation_tables(check, rule, precision_rule=None):
                             witness='def sub(): return decoy(callee(a, *args, **kwargs))')
     elif wl:
         check.holds(rule, site_of(fi, wl[0]), 'deferred calls are drained by a while loop', key=key)
+        # the order in which they are drained is the order the discovered signatures are merged in (merge is not commutative:
+        # names and defaults of the left operand win) -- it must be the order of the source, i.e. from the front of the list.
+        # Soundness does not depend on it, so this is reported under the agreement property only
+        if precision_rule is not None:
+            pops = [c for c in ast.walk(wl[0]) if isinstance(c, ast.Call) and isinstance(c.func, ast.Attribute) and c.func.attr in ('pop', 'popleft')
+                    and 'to_revisit' in norm(c.func.value)]
+            korder = '__init__|revisit-order'
+            if pops and all((c.func.attr == 'popleft') or (c.args and isinstance(c.args[0], ast.Constant) and c.args[0].value == 0) for c in pops):
+                check.holds(precision_rule, site_of(fi, pops[0]), 'deferred calls are taken from the front of the list: processed in source order', key=korder)
+            elif pops:
+                check.violation(precision_rule, site_of(fi, pops[0]), 'deferred calls are taken from the end of the list (%s): the calls of nested scopes are '
+                                'processed, and their signatures merged, in reverse source order' % norm(pops[0])[:40], key=korder,
+                                witness='two forwarding calls in nested defs to callees with different positional names: the result differs from '
+                                        'merge(forwards(w, c1), forwards(w, c2))')
     else:
         check.violation(rule, site_of(fi, fi.node), 'deferred nested-scope calls are never processed', key=key,
                         witness='def sub(): return inner(*args, **kwargs)')
@@ -961,6 +975,27 @@ def rule_resolution_order(check, rule):
                 check.violation(rule, st, '%s: a miss raises %s instead of UnresolvableName' % (cur, en), key=key,
                                 witness='a missing global must fall back, not escape as KeyError')
     check.floor(rule, 'paths of resolve_name', n, 8)
+    # "not a free variable" and "a free variable whose cell is still empty" both surface as ValueError (tuple.index /
+    # cell.cell_contents).  Only the first may lead on to the globals: a handler that covers both reads sends an unbound closure
+    # variable to a global of the same name
+    for t in [x for x in ast.walk(fi.node) if isinstance(x, ast.Try)]:
+        body_idx = [c for s_ in t.body for c in ast.walk(s_) if isinstance(c, ast.Call) and isinstance(c.func, ast.Attribute) and c.func.attr == 'index'
+                    and 'co_freevars' in norm(c.func.value)]
+        body_cell = [a for s_ in t.body for a in ast.walk(s_) if isinstance(a, ast.Attribute) and a.attr == 'cell_contents'
+                     and not any(isinstance(q, ast.Try) and q is not t and any(a in ast.walk(b_) for b_ in q.body) for q in ast.walk(t))]
+        catches = [h for h in t.handlers if h.type is not None and 'ValueError' in norm(h.type)]
+        if not (body_idx and catches):
+            continue
+        key = 'resolve_name|free-vs-empty-cell'
+        h = catches[0]
+        leads_to_globals = any('__globals__' in norm(s_) for s_ in h.body) or \
+            (not isinstance(h.body[-1], (ast.Raise, ast.Return)) and '__globals__' in norm(fi.node))
+        if body_cell and leads_to_globals:
+            check.violation(rule, site_of(fi, body_cell[0]), 'the handler that means "not a free variable" also covers the read of the closure cell: a closure '
+                            'variable that is not bound yet (ValueError from cell_contents) is looked up in the globals instead of being unresolvable',
+                            key=key, witness='def outer(): \n  def w(*a, **k): return callee(*a, **k)\n  sig = signature(w); callee = ...  with a global `callee`')
+        else:
+            check.holds(rule, site_of(fi, body_idx[0]), 'only the free-variable test falls through to the globals; an empty cell is unresolvable', key=key)
 
 
 def rule_scope_chain_lookups(check, rule):
